@@ -3,7 +3,8 @@
    ginv (Proofs/Grid_proofs.v) is the invariant; ginv_readable spells it out clause by clause. *)
 From Coq Require Import ZArith List Bool Arith Lia.
 From Abm Require Import Base.Sx Grid.Overlap Grid.Grid Grid.Move Grid.Attack Grid.Vis Grid.AttackRun
-  Grid.Play Proofs.Grid_proofs Proofs.Move_proofs Proofs.Init_proofs Proofs.Attack_proofs Proofs.Play_proofs.
+  Grid.Play Proofs.Grid_proofs Proofs.Move_proofs Proofs.Init_proofs Proofs.Attack_proofs Proofs.Play_proofs
+  Proofs.GridChk_proofs Proofs.PlayChk_proofs.
 Import ListNotations.
 Open Scope Z_scope.
 
@@ -61,6 +62,60 @@ Theorem C03_no_keyerror : forall s v b st q,
 Proof. exact death_removal_succeeds. Qed.
 Print Assumptions C03_no_keyerror.
 
+(* ---- the executable invariant test ginvb against the invariant ---------------------------------- *)
+(* all_placed s: every active agent has a position (true after a reset that places every agent;
+   an agent whose initial placement failed stays active without a cell, which ginv tolerates and
+   ginvb reports as 302) *)
+
+(* it is preserved by every operation, hence along every interleaving *)
+Theorem C03_placed_preserved : forall vis s o, all_placed s -> all_placed (do_pop vis s o).
+Proof. exact all_placed_do_pop. Qed.
+Print Assumptions C03_placed_preserved.
+
+(* completeness: ginvb answers 0 on every state satisfying the invariant *)
+Theorem C03_ginvb_complete : forall s,
+  ginv s -> (forall a, In a (g_agents s) -> a_active a = true -> exists p, a_pos a = Some p) ->
+  ginvb s = 0.
+Proof. exact ginvb_complete. Qed.
+Print Assumptions C03_ginvb_complete.
+
+(* soundness: answer 0 establishes the property's clauses for the cells of the grid *)
+Theorem C03_ginvb_sound : forall s, ginvb s = 0 ->
+  (forall i a, agent s i = Some a ->
+     0 <= a_health a <= HD /\ (a_health a = 0 -> a_active a = false) /\
+     (a_active a = true <-> 0 < a_health a) /\
+     (forall m, a_ammo a = Some m -> 0 <= m) /\ (forall o, a_orient a = Some o -> 1 <= o <= 4)) /\
+  (forall i a, agent s i = Some a -> a_active a = true ->
+     exists p, a_pos a = Some p /\ inside s p = true /\ In i (cell_get (g_cells s) p) /\
+               NoDup (cell_get (g_cells s) p) /\
+               forall q, inside s q = true -> In i (cell_get (g_cells s) q) -> q = p) /\
+  (forall p i, inside s p = true -> In i (cell_get (g_cells s) p) ->
+     exists a, agent s i = Some a /\ a_active a = true /\ a_pos a = Some p) /\
+  (forall p i j, inside s p = true -> In i (cell_get (g_cells s) p) -> In j (cell_get (g_cells s) p) ->
+     i <> j -> ov_allowed (g_ov s) (enc_of s i) (enc_of s j) = true).
+Proof. exact ginvb_sound. Qed.
+Print Assumptions C03_ginvb_sound.
+
+(* chk_C03_model on decoded states: ginvb answers 0 in every state reachable by any interleaving of
+   moves and attacks, for every visibility function and all random draws *)
+Theorem chk_C03_model : forall vis ops s, ginv s -> all_placed s -> ginvb (play vis s ops) = 0.
+Proof. exact ginvb_play. Qed.
+Print Assumptions chk_C03_model.
+
+(* through the snapshot codec: the extracted checker loop on the records the extracted model emits,
+   and the wire entry points *)
+Theorem C03_chk_snaps_model : forall ops s0, ginv s0 -> all_placed s0 ->
+  chk_snaps s0 (run_pops s0 ops) = 0.
+Proof. exact chk_snaps_model0. Qed.
+Print Assumptions C03_chk_snaps_model.
+
+Theorem C03_run_chk_model : forall xin s0 xops ops,
+  dec_grid_input xin = Some (s0, xops) -> all_some (map dec_pop xops) = Some ops ->
+  ginv s0 -> all_placed s0 ->
+  run_chk_C03 (L [xin; run_play xin]) = A 1.
+Proof. exact run_chk_C03_model. Qed.
+Print Assumptions C03_run_chk_model.
+
 (* ---- non-vacuity: 3x3 grid, two overlappable agents piled on one cell, an attack kills one ---- *)
 Definition ex_ag (e : Z) (p : cell) (h : Z) (am : option Z) : arec :=
   {| a_enc := e; a_pos := Some p; a_health := h; a_active := true; a_ammo := am;
@@ -91,3 +146,9 @@ Proof.
       intros x. destruct (a_pos x); auto.
   - repeat split; vm_compute; reflexivity.
 Qed.
+
+Example C03_nonvacuous_chk :
+  all_placed ex0 /\ chk_snaps ex0 (run_pops ex0 ex_ops) = 0 /\
+  (* an agent whose placement failed (cell taken by a non-overlappable agent): ginv holds, 302 reported *)
+  ginvb (init_state 1 2 [] [ex_ag 1 (0, 0) HD None; ex_ag 1 (0, 0) HD None]) = 302.
+Proof. split; [apply all_placed_b; reflexivity|]. split; vm_compute; reflexivity. Qed.
